@@ -139,6 +139,7 @@ def perturbations(rng: random.Random, desc, path, keys) -> List[Tuple[str, List[
     out.append(("root:unknown", [[keys[0][0], "urn:vf:none"]] + keys[1:], kind))
     out.append(("trailing", keys + [["PROPERTY", rng.choice(["a", "0", "nope"])]], "Property"))
     out.append(("trailing:frag", keys + [["FRAGMENT_REFERENCE", "frag"]], kind))
+    out.append(("trailing:frag2", keys + [["FRAGMENT_REFERENCE", "frag"], ["FRAGMENT_REFERENCE", "g"]], kind))
     d = desc
     for pos, i in enumerate(path):
         under_list = d[0] == "SubmodelElementList"
@@ -432,6 +433,42 @@ def mutate_sai(rng, a):
 def budgets(ctx: C.Ctx):
     return {"trees": ctx.budget(60, 1500), "depth": 4 if ctx.tier == "quick" else 5, "width": 3 if ctx.tier == "quick" else 4,
             "values": ctx.budget(300, 5000)}
+
+
+def translate(ctx: C.Ctx) -> List[str]:
+    """Extract which variants of the AASd-126 / AASd-128 checks ModelReference.__init__ uses (both are C02's subject and
+    have pending repairs there); written to lean/Basyx/Gen/TreeCfg.lean. Unknown shapes are reported as a broken tie."""
+    import os
+    import re
+    src = open(os.path.join(C.REPO, "sdk/basyx/aas/model/base.py"), encoding="utf-8").read()
+    broken: List[str] = []
+    m = re.search(r"pk\.type == KeyTypes\.SUBMODEL_ELEMENT_LIST and not k\.value\.(\w+)\(\)", src)
+    meth = m.group(1) if m else None
+    if meth not in ("isnumeric", "isdecimal"):
+        broken.append(f"AASd-128 check in ModelReference.__init__ not recognised (method {meth!r})")
+    lenient = re.search(r"if not key\[-1\]\.type\.is_generic_fragment_key:\s+for k in key\[:-1\]:\s+if k\.type\.is_generic_fragment_key:", src)
+    strict = re.search(r"\n        for k in key\[:-1\]:\s+if k\.type\.is_generic_fragment_key:", src)
+    if not lenient and not strict:
+        broken.append("AASd-126 check in ModelReference.__init__ not recognised")
+    text = f"""/- REGENERATED on every run by py/props/c07.py::translate from sdk/basyx/aas/model/base.py (ModelReference.__init__).
+   Do not edit. -/
+namespace Basyx.Gen.TreeCfg
+
+/-- AASd-128 check: `true` = `k.value.isdecimal()`, `false` = `k.value.isnumeric()` -/
+def aasd128Decimal : Bool := {"true" if meth == "isdecimal" else "false"}
+
+/-- AASd-126 check: `true` = every generic fragment key before the last one is rejected, `false` = only when the last
+    key is not a generic fragment key itself -/
+def aasd126Strict : Bool := {"true" if (strict and not lenient) else "false"}
+
+end Basyx.Gen.TreeCfg
+"""
+    path = os.path.join(C.LEAN_DIR, "Basyx", "Gen", "TreeCfg.lean")
+    old = open(path, encoding="utf-8").read() if os.path.exists(path) else None
+    if old != text:
+        with open(path, "w", encoding="utf-8") as f:
+            f.write(text)
+    return broken
 
 
 def correspond(ctx: C.Ctx, cov: C.Coverage) -> List[C.Disagreement]:
@@ -845,12 +882,53 @@ def search(ctx: C.Ctx, disagreements, broken) -> List[C.Failing]:
     return oracle(big, C.Coverage())
 
 
+def _mk_value(cls, j):
+    from basyx.aas import model
+    if cls == "Key":
+        return model.Key(getattr(model.KeyTypes, j[0]), j[1])
+    return mk_refv(j) if cls == "Reference" else mk_sai(j)
+
+
+def replay_values(case) -> Optional[C.Failing]:
+    _, cls, ja, jb = case
+    a, b = _mk_value(cls, ja), _mk_value(cls, jb)
+    try:
+        eq = (a == b)
+        if eq and hash(a) != hash(b):
+            return C.Failing(f"value:{cls}:eq-without-equal-hash", f"{ja} == {jb} but hashes differ", case)
+        if ja == jb and not eq:
+            return C.Failing(f"value:{cls}:equal-construction-not-equal", f"two {cls} built from {ja} are not ==", case)
+        if eq != (b == a):
+            return C.Failing(f"value:{cls}:eq-not-symmetric", f"{ja} vs {jb}", case)
+    except Exception as e:
+        return C.Failing(f"value:{cls}:eq-or-hash-raises", repr(e), case)
+    return None
+
+
+def replay_setattr(case) -> Optional[C.Failing]:
+    _, cls, j, name = case
+    o = _mk_value(cls, j)
+    before = (snapshot(o), hash(o))
+    for val in (None, "x", 1):
+        try:
+            setattr(o, name, val)
+            raised = False
+        except AttributeError:
+            raised = True
+        except Exception as e:
+            return C.Failing(f"value:{cls}:setattr:{name}:raises-{type(e).__name__}", repr(e), case)
+        if not raised or (snapshot(o), hash(o)) != before:
+            return C.Failing(f"value:{cls}:setattr:{name}:accepted", f"assignment to {cls}.{name} did not raise / changed the value", case)
+    return None
+
+
 def replay(case) -> Optional[C.Failing]:
     if isinstance(case, list) and case and case[0] == "sai-list":
         return check_sai_list(case[1])
-    if isinstance(case, list) and case and case[0] in ("values", "setattr"):
-        fs = check_values(random.Random(0), 40)
-        return fs[0] if fs else None
+    if isinstance(case, list) and case and case[0] == "values":
+        return replay_values(case)
+    if isinstance(case, list) and case and case[0] == "setattr":
+        return replay_setattr(case)
     if isinstance(case, dict) and "case" in case:
         for seed in range(4):
             f = check_case(case["case"], random.Random(seed))
